@@ -109,10 +109,12 @@ func Layout(rt *rapid.T, o LayoutOpts) *Tree {
 		g.t.Files[d+"/types.go"] = types.String()
 		// split converters over one or two declaring files
 		files := map[string]*strings.Builder{}
+		// the second declaring file may carry more dots than the one before "go"
+		second := []string{"more.go", "more.dto.go", "api.v2.go"}[g.draw(3, "second-file-name")]
 		for _, i := range idxs {
 			file := d + "/conv.go"
 			if g.coin("second-file") {
-				file = d + "/more.go"
+				file = d + "/" + second
 			}
 			b := files[file]
 			if b == nil {
@@ -255,6 +257,19 @@ func (g *layoutGen) converter(i int, dir, pkgName, file, fault string) LConv {
 // renderLConv renders the declaration; PATH in OutPkg is resolved by the caller through
 // ResolveOutPkg before rendering (the tree stores resolved text).
 func renderLConv(c LConv) string {
+	switch c.Fault {
+	case "syntax-above":
+		// a helper that lost its closing brace: everything below parses as its body
+		return fmt.Sprintf("func brokenHelper%s() {\n\tprintln(1)\n\n", c.ID) + renderLConvDecl(c)
+	case "syntax-below":
+		return renderLConvDecl(c) + fmt.Sprintf("func brokenTail%s() {\n\n", c.ID)
+	case "type-error":
+		return renderLConvDecl(c) + fmt.Sprintf("var _ = undefinedIdentifier%s\n\n", c.ID)
+	}
+	return renderLConvDecl(c)
+}
+
+func renderLConvDecl(c LConv) string {
 	var b strings.Builder
 	marker := "converter"
 	if c.Name == "" {
